@@ -492,3 +492,9 @@ package parse
 //@   nopanic
 //@   ensures result == cols_upto(t.lex.input[lineStart(t.lex.input, pieceStart(t, s)):pieceStart(t, s)], pieceStart(t, s) - lineStart(t.lex.input, pieceStart(t, s)))
 //@   loop 0 invariant quotePos == cols_upto(leadUp, looppos) && 0 <= quotePos && quotePos <= 8*looppos
+//@ func (Node).Msg
+//@   nopanic
+//@ func (Node).AppTag
+//@   nopanic
+//@ func (HasArgument).ArgLength
+//@   nopanic
